@@ -40,6 +40,7 @@ func ParseDateTime(value string) (DateTime, error) {
 	value = strings.TrimPrefix(value, "@")
 	for _, l := range dateTimeLayouts {
 		if t, err = time.Parse(l, value); err == nil {
+			t = pinOffset(t)
 			if strings.Contains(value, ".") {
 				// time.Parse accepts a fraction that the layout does not mention:
 				// keep it visible, at the millisecond precision DateTime supports
@@ -228,7 +229,19 @@ func (dt DateTime) Add(input Quantity) (DateTime, error) {
 	if err != nil {
 		return DateTime{}, err
 	}
-	return DateTime{result, dt.l}, nil
+	return DateTime{pinOffset(result), dt.l}, nil
+}
+
+// pinOffset keeps the offset a DateTime was written with. time.Parse hands back
+// a time in time.Local when the parsed offset happens to be one the process
+// time zone uses; calendar arithmetic on such a value would follow the
+// daylight-saving rules of that zone instead of keeping the offset.
+func pinOffset(t time.Time) time.Time {
+	if t.Location() != time.Local {
+		return t
+	}
+	_, offset := t.Zone()
+	return t.In(time.FixedZone("", offset))
 }
 
 // Sub returns the result of dt - input.(Quantity). Returns an
